@@ -514,6 +514,7 @@ class ManagerCorr(FrameResultCorr):
 class C03(Prop):
     id = "C03"
     props_file = "Props/C03.v"
+    extra_props_files = ["Props/Pipeline.v"]     # the composed frame pipeline (C01 -> C10 -> C03 -> C04; C08 on it)
     gen_files = []
     design_ref = "DESIGN.md section 4, C03"
     technique = ("Rocq proof over an executable model of evaluate_frame (critical filtering via the C10 model, get_status, "
@@ -536,7 +537,8 @@ class C03(Prop):
                   "sequences of frames: evaluate_frame is a function of its frame only in the model (history independence is C13)"]
 
     def correspondences(self):
-        return [FrameResultCorr(), ManagerCorr()]
+        from harness.props.pipeline_corr import PipelineCorr
+        return [FrameResultCorr(), ManagerCorr(), PipelineCorr()]
 
 
 READY = True
